@@ -129,6 +129,7 @@ def main(c):
     enumerate_faults(c, c06.build(c), base_net, "NetTrace", "NetTrace.cfg", "net", c.pick(10, 40), sd=c06.SD, insert=ev_insert)
     # ---- buffered reader / writer ----
     base_nb = [c07.reader_program(rnd) for _ in range(c.pick(8, 80))] + [c07.writer_program(rnd, zero=True) for _ in range(c.pick(8, 80))]
+    base_nb += [c07.tls(c07.reader_program(rnd)) for _ in range(c.pick(3, 30))] + [c07.tls(c07.writer_program(rnd, zero=True)) for _ in range(c.pick(3, 30))]
     enumerate_faults(c, c07.build(c), base_nb, "NbTrace", "NbTrace.cfg", "nb", c.pick(10, 40), sd=c07.SD, insert=ev_insert)
     # ---- HTTP requests ----
     def http_insert(p, k, mode):
@@ -144,7 +145,18 @@ def main(c):
     for i in range(2):
         p = c08.wellformed(c08.simple_response(rnd, 200 + i, n=5, nh=1), rnd, 200 + i)
         base_http.append(p.replace("\nmaxrlen ", "\nhttps\nmaxrlen ", 1))
-    directed_http = set(base_http[-5:])
+    # whole requests over the TLS transport (netbuf_ssl / network_ssl under http.c): every allocation refused in turn
+    for i in range(c.pick(3, 12)):
+        base_http.append(c08.tls(c08.wellformed(c08.simple_response(rnd, 300 + i, n=rnd.choice([0, 5, 300]), nh=rnd.choice([0, 2])), rnd, 300 + i)))
+    base_http.append(c08.tls(c08.hostile(rnd, 400)))
+    # connection lists whose first address fails (at once / asynchronously) before one that connects: the retry inside
+    # network_connect with every allocation refused in turn (where the open finding F11 lives)
+    ndir = 0
+    for i, plan in enumerate(("F O", "R:300 O", "F F O")):
+        p = c08.wellformed(c08.simple_response(rnd, 500 + i, n=5, nh=1), rnd, 500 + i)
+        base_http.append(re.sub(r"\nconnect [^\n]*", "\nconnect " + plan, p, count=1))
+        ndir += 1
+    directed_http = set(base_http[-(5 + c.pick(4, 13) + ndir):])
     # the allocation count of an HTTP request is in its end event; scenarios with several MB of body are left out
     base_http = [p for p in base_http if len(p) < 200000]
     exe_http = c08.build(c)
